@@ -68,6 +68,7 @@ func init() {
 		c19Puppet(filepath.Base(os.Args[0])) // never returns
 	}
 	vRegister("c19_run", c19Run)
+	vRegister("c19_early", c19Early)
 }
 
 // ---------------------------------------------------------------- the puppet helper
@@ -382,6 +383,22 @@ func (s *c19Scn) waitStarted(d time.Duration) bool {
 
 const c19PumpWait = 15 * time.Second
 
+// waitSessionInit (steering only, reads internals): the filter publishes the session in
+// filter.zmodem *before* the goroutine handleZmodemEvent assigns z.serverIn / z.clientOut.  A
+// Ctrl-C in between dereferences a nil writer (finding "early Ctrl-C", probed separately and in
+// isolation by c19_early).  Ordinary scenarios wait until the session is initialised.
+func (s *c19Scn) waitSessionInit(filter *TrzszFilter) {
+	deadline := time.Now().Add(5 * time.Second)
+	for time.Now().Before(deadline) {
+		z := filter.zmodem.Load()
+		if z == nil || z.clientOut != nil {
+			break
+		}
+		time.Sleep(200 * time.Microsecond)
+	}
+	time.Sleep(time.Millisecond)
+}
+
 func (s *c19Scn) feedSrv(kind, veto string) {
 	s.nextID++
 	id := s.nextID
@@ -538,6 +555,9 @@ func (s *c19Scn) run(plan map[string]any, env *c19Env) {
 				k = "hdr1"
 			}
 			s.feedSrv(k, veto)
+			if early, _ := m["early"].(bool); !early {
+				s.waitSessionInit(filter)
+			}
 		case "srv":
 			k, _ := m["k"].(string)
 			s.feedSrv(k, "none")
@@ -603,6 +623,37 @@ func (s *c19Scn) run(plan map[string]any, env *c19Env) {
 	if s.hang == "" {
 		s.emit(map[string]any{"e": "end", "id": s.id})
 	}
+}
+
+// ---------------------------------------------------------------- early Ctrl-C probe
+
+// c19Early: in child processes (a crash must not take the other scenarios down), repeat
+// "start header, Ctrl-C immediately" without the steering wait.  A child that dies is reported
+// by vShards (shard-XX.crash.txt holds its output); survivors count their attempts.
+func c19Early(d *vCtx) error {
+	attempts := d.pInt("attempts", 20)
+	return vShards(d, d.pInt("procs", 6), func(i, n int) error {
+		root := d.path("scn")
+		_ = os.Setenv("PATH", d.path("nobin")+":/usr/bin:/bin")
+		_ = os.Setenv("HOME", d.path("home"))
+		env := &c19Env{root: root, helperOK: false}
+		done := 0
+		for a := 0; a < attempts; a++ {
+			plan := map[string]any{"steps": []any{
+				map[string]any{"a": "hdr", "up": (a+i)%2 == 0, "veto": "none", "start": "nopath", "early": true},
+				map[string]any{"a": "ctrlc"},
+				map[string]any{"a": "wait", "ms": 200.0},
+			}}
+			s := &c19Scn{id: a, dir: filepath.Join(root, fmt.Sprintf("e%02d-%03d", i, a)),
+				termTok: map[int]bool{}, inpTok: map[int]bool{}, houtTok: map[int]bool{},
+				started: make(chan struct{}), gone: make(chan struct{}), last: time.Now()}
+			s.run(plan, env)
+			_ = os.RemoveAll(s.dir)
+			done++
+		}
+		d.set("attempts_survived", done)
+		return nil
+	})
 }
 
 // ---------------------------------------------------------------- driver
